@@ -117,6 +117,8 @@ def unify(pat, ty, env):
         return True
     if ty[0] == 'var':
         return True  # caller side generic: accept
+    if pat[0] == 'raw' and pat[1].startswith('impl '):
+        return True  # argument-position `impl Trait`: any concrete type
     if pat[0] != ty[0]:
         return False
     if pat[0] == 'ref':
